@@ -85,6 +85,9 @@ Proof. reflexivity. Qed.
 Section Shipped.
 Context {T : Type} (ops : numops T) (orc : oracles T) (f : Z -> T) (tk : Z).
 Let cf := gen_cfg f tk.
+(* the two arithmetic laws of the _programTrack time checks (binary64 and reals: Proofs/MsvGen.v) *)
+Hypothesis law0 : pt_law ops (gen_cfg f tk).
+Hypothesis law5 : forall p now, nlt ops p now = false -> nlt ops p (nsub ops now (nofZ ops 5)) = false.
 
 (* C02 for the shipped configuration: in every state with the shape invariant and an idle parser,
    the query STATUS=<servo> (every one of the eight servos) fed byte by byte is answered True for
@@ -114,7 +117,7 @@ Proof.
   { unfold cf, gen_cfg in Hin'. cbn [c_servos] in Hin'. apply in_map_iff in Hin' as (r' & <- & Hr').
     cbn [sc_dof sc_layout]. pose proof gen_layouts_ok as G. rewrite forallb_forall in G.
     eapply layout_ok_mono; [exact Hd|]. exact (G r' Hr'). }
-  destruct (status_servo_answered ops orc cf (gen_shape f tk) s e (sc_name sc) i sc' Hs Hf Hl)
+  destruct (status_servo_answered ops orc cf law5 (gen_shape f tk) s e (sc_name sc) i sc' Hs Hf Hl)
     as (s' & body & Hh & Hs' & Hm').
   cbn [sc_name sc] in Hh. unfold cf in *. rewrite Hh. cbn [fst snd].
   exists s', body. split; [reflexivity|]. split; [exact Hs'|]. rewrite Hm'. exact Hm.
@@ -137,7 +140,11 @@ Qed.
 Theorem reachable_shape e0 evs :
   shape_inv cf (snd (fst (run ops orc cf (e0, init_sys ops cf) evs))).
 Proof.
-  apply (run_shape ops orc cf (gen_shape f tk) (gen_rows f tk)). cbn [snd]. apply init_shape.
+  apply (run_shape ops orc cf law0 law5 (gen_shape f tk) (gen_rows f tk)). cbn [snd]. apply init_shape.
 Qed.
+
+(* ... and in such a state the update thread's iteration never raises *)
+Theorem update_never_raises s e spls : shape_inv cf s -> snd (refresh ops cf e spls s) = false.
+Proof. apply (refresh_no_raise ops cf law5 (gen_shape f tk)). Qed.
 
 End Shipped.
